@@ -62,6 +62,8 @@ type worker struct {
 	rig   *rhpx.Rig
 	s     *rhpx.Sess
 	cid   int   // the contract currently exercised (changes when it is refreshed)
+	// duringRenewal: the next renew/refresh tries other RPCs on the contract while it is in flight
+	duringRenewal bool
 	cur   []int // the harness's expectation of the contract's roots
 	next  int   // next fresh sector id
 	maxID int
@@ -388,10 +390,13 @@ func (w *worker) faultFree(n int, is []uint64, v variant) error {
 	}
 	c := w.begin(fmt.Sprintf("fault-free-n%d-%s-%s", n, seqName(is), v.name), nil)
 	before := w.snap()
+	// the batch form of the list model (equal to sequential swap-remove for descending lists, and
+	// defined for any distinct in-range list)
 	expect := append([]int(nil), w.cur...)
-	for _, i := range is {
-		expect = swapRemove(expect, int(i))
+	for i, x := range is {
+		expect[x] = expect[len(expect)-i-1]
 	}
+	expect = expect[:len(expect)-len(is)]
 	ps := w.s.GoodPrices()
 	if v.prices != nil {
 		ps = v.prices(ps)
@@ -741,7 +746,25 @@ func (w *worker) refreshInto(c *vh.Case, kind string) error {
 	}
 	old := w.cid
 	st, _ := w.rig.HostState(w.s.CID(old))
-	fs := &rhpx.FundSigner{W: w.rig.W, PK: rhpx.Key(rhpx.RenterKeyID)}
+	fs := &rhpx.HookSigner{FundSigner: &rhpx.FundSigner{W: w.rig.W, PK: rhpx.Key(rhpx.RenterKeyID)}}
+	if w.duringRenewal {
+		// while the renew/refresh holds the contract (host inputs sent, renter signatures pending) other
+		// RPCs on the same contract must be refused: first a listing, then an append that would change
+		// the roots under the renewal's feet.  Raw renter: it waits for its own streams only.
+		fs.Hook = func() {
+			base := st
+			w.s.SetBase(old, &base)
+			defer w.s.SetBase(old, nil)
+			r1 := w.s.Roots(rhpx.RootsArgs{Cid: old, Prices: w.s.GoodPrices(), Offset: 0, Len: 1, Sig: rhpx.Honest, CurIDs: w.cur})
+			r2 := w.s.Append(rhpx.AppendArgs{Cid: old, Prices: w.s.GoodPrices(), Chal: rhpx.Honest, Sectors: []int{35}, Second: rhpx.Honest, NewIDs: append(append([]int(nil), w.cur...), 35)})
+			r3 := w.s.Free(rhpx.FreeArgs{Cid: old, Prices: w.s.GoodPrices(), Chal: rhpx.Honest, Indices: []uint64{0}, Second: rhpx.Honest})
+			for _, r := range []rhpx.Result{r1, r2, r3} {
+				if r.Cls == "ok" {
+					c.Oracle("lock-not-exclusive:"+strings.Fields(r.Op)[0]+"-during-"+kind, "%q succeeded on a contract that a %s in flight holds locked", r.Op, kind)
+				}
+			}
+		}
+	}
 	var contract rhp4.ContractRevision
 	var set rhp4.TransactionSet
 	switch kind {
@@ -816,7 +839,12 @@ func (w *worker) refreshCase(k, j int, kind, followup string) error {
 		w.cur = w.cur[:k-j]
 	}
 	stored := []int{30, 31}
-	c := w.begin(fmt.Sprintf("%s-k%d-j%d-%s", kind, k, j, followup), stored)
+	c := w.begin(fmt.Sprintf("%s-k%d-j%d-%s", kind, k, j, followup), append(stored, 35))
+	w.duringRenewal = (k+j)%2 == 0
+	defer func() { w.duringRenewal = false }()
+	if w.duringRenewal {
+		c.Name += "-contended"
+	}
 	if err := w.refreshInto(c, kind); err != nil {
 		c.Oracle("harness-setup", "%v", err)
 		w.add(c)
@@ -1056,6 +1084,28 @@ func Run(r *vh.Run) {
 					jobs = append(jobs, func(w *worker) error { return w.window(n, uint64(off), uint64(l), false) })
 				}
 				jobs = append(jobs, func(w *worker) error { return w.window(n, uint64(off), uint64(l), true) })
+			}
+		}
+	}
+	// (2a) free requests whose (distinct, in-range) indices are NOT descending, abandoned or refused
+	// after the host's first response: the host must not have written into the roots it was lent
+	for n := 2; n <= 5; n++ {
+		for _, is := range sequences(n-1, 3) {
+			if len(is) < 2 || sortedDesc(is) {
+				continue
+			}
+			seen := map[uint64]bool{}
+			dup := false
+			for _, i := range is {
+				dup = dup || seen[i]
+				seen[i] = true
+			}
+			if dup {
+				continue
+			}
+			for _, v := range variants()[:3] { // abort, drop, sig-garbage
+				n, is, v := n, is, v
+				jobs = append(jobs, func(w *worker) error { return w.faultFree(n, is, v) })
 			}
 		}
 	}
